@@ -4,6 +4,8 @@
 (***************************************************************************)
 EXTENDS Substitution
 
+SeqSet(sq) == {sq[j] : j \in 1..Len(sq)}
+
 BoolConn == BoolOps \cup {"forall", "exists"}
 \* a Boolean-sorted ite is a connective, every other Boolean term that is not
 \* built by a connective or quantifier is an atom (constants included)
